@@ -48,7 +48,7 @@ func NewReflector[S, A any](t hseq.Type[S]) Reflector[A] {
 	fv := reflect.TypeOf(new(A)).Elem()
 	cat := reflect.TypeOf(new(S)).Elem()
 
-	if ft == fv && focusable(cat, t.RootOffs+t.Offset, fv) {
+	if ft == fv && focusable(cat, t.RootOffs+t.Offset, t.Name, fv) {
 		return &lens[S, A]{t}
 	}
 
